@@ -207,6 +207,11 @@ def _rand_case(rng, big=False):
             lv += 1
         args = [rng.randint(0, 9) for _ in range(rng.choice([0, 0, 1, 2]))]
         kwargs = [rng.randint(0, 9) for _ in range(rng.choice([0, 0, 1, 2]))]
+        if rng.random() < 0.2:
+            # keyword arguments by name, incl. names that helpers inside the library may use for their own parameters
+            kwargs = [[nm, rng.randint(0, 9)] for nm in rng.sample(KW_NAMES, rng.choice([1, 1, 2, 3]))]
+            if not args:
+                args = [rng.randint(0, 9)]
         kind = rng.choice(KINDS)
         r = rng.random()
         if r < 0.06:
@@ -271,6 +276,22 @@ def _nested_sweep():
                             yield {"ops": setup + [["activate", KINDS[j % 3], "name" if j % 2 else "callable", [["all"], ["user", 0]][j % 2], sc, [], [], sc2]]}
 
 
+def _kwname_sweep(names=None):
+    """every keyword name x every way of activating (3 agents, one positional and one keyword argument, no churn)"""
+    setup = [["act", ["create", i % 2, 1, False]] for i in range(3)]
+    j = 0
+    for nm in (names or KW_NAMES):
+        for kind in KINDS + ["shuffle_then_do", "copy_do"]:
+            for form in ("name", "callable"):
+                j += 1
+                yield {"ops": setup + [["activate", kind, form, ["all"], [], [7], [[nm, 5]], []]]}
+        for kind in KINDS:
+            for outer in ("do", "map", "do-callable", "map-callable"):
+                yield {"ops": setup + [["group", kind, outer, "attr", ["all"], 2, [], [7], [[nm, 5]], []]]}
+        for outer in ("do", "map"):
+            yield {"ops": setup + [["grouplist", outer, "callable", ["all"], 2, [], [7], [[nm, 5]], []]]}
+
+
 def _exhaustive(nmax, kinds, user_orders):
     for n in range(1, nmax + 1):
         setup = [["act", ["create", i % 2, 1, False]] for i in range(n)]
@@ -288,6 +309,8 @@ def gen_cases(rng, tier):
     cases = []
     # every one-act script over sets of size <= 2 (3 thorough), all kinds
     cases += list(_exhaustive(3 if tier == "quick" else 4, KINDS, True))
+    kws = list(_kwname_sweep())
+    cases += kws if tier != "quick" else kws[rng.randrange(4)::4]
     nest = list(_nested_sweep())
     cases += nest if tier != "quick" else nest[::4]
     n = 1100 if tier == "quick" else 15000
@@ -328,6 +351,7 @@ def enumerate_cases(tier, broken=False):
     if tier == "thorough" and not broken:
         return  # gen_cases already ran (and compared with the model) every script over sets of size <= 4
     yield from _exhaustive(4, KINDS, True)
+    yield from _kwname_sweep()
 
 
 # ------------------------------------------------------------------ implementation side
@@ -356,7 +380,7 @@ def _env():
             self.g2 = self._hid % 2
             self.g3 = self._hid % 3
 
-        def act(self, *a, **k):
+        def act(self, /, *a, **k):
             return ctx["cur"].call(self, a, k)
 
         return type(name, bases or (mesa.Agent,), dict({"__init__": __init__, "act": act}, **extra))
@@ -408,7 +432,7 @@ class _CallObj:
     def __init__(self, fn):
         self.fn = fn
 
-    def __call__(self, agent, *a, **k):
+    def __call__(self, agent, /, *a, **k):
         return self.fn(agent, *a, **k)
 
 
@@ -562,7 +586,7 @@ class _Run:
         raised = False
         form = (where[1] + where[2]) % 2
         nlevel = self.depth
-        target = "act" if form else (lambda agent, *a, **k: self.call(agent, a, k))
+        target = "act" if form else (lambda agent, /, *a, **k: self.call(agent, a, k))
         try:
             res = getattr(s, akind)(target, tok=None, xv=None)
             del res
@@ -727,6 +751,31 @@ def run_impl(case):
         gc.enable()
 
 
+# keyword names an activation may be given; they are the user's, whatever helpers inside the library call their parameters.
+# Not in the list: `method` and `self` (bound by do/shuffle_do/map/GroupBy.do/map themselves: a TypeError on the unchanged tree
+# too), `tok` / `xv` (used by this driver).
+KW_NAMES = ["agents", "args", "kwargs", "func", "agent", "return_results", "agentref", "ref", "weakrefs", "res", "group", "groups",
+            "v", "k", "by", "key", "attr_name", "value", "model", "random", "inplace", "at_most", "filter_func", "agent_type",
+            "handle_missing", "default_value", "item", "cls", "n", "ascending", "result_type", "state"]
+
+
+def _kw_of(kwargs):
+    """kwargs of a case op: ints (named k0, k1, ...) or [name, int] pairs"""
+    out = {}
+    for j, e in enumerate(kwargs):
+        if isinstance(e, (list, tuple)):
+            if e[0] not in ("method", "self", "tok", "xv"):
+                out[str(e[0])] = int(e[1])
+        else:
+            out[f"k{j}"] = int(e)
+    return out
+
+
+def _kw_values(kwargs):
+    kw = _kw_of(kwargs)
+    return [kw[n] for n in sorted(kw)]
+
+
 def _exotic(i):
     """a value of a kind the callbacks of real models receive: passed as the keyword `xv`, must arrive as the SAME object, unchanged"""
     import decimal
@@ -826,14 +875,14 @@ def _run_impl(env, case):
                     run.calls = []
                     ev0 = len(run.events)
                     token = object()
-                    kw = {f"k{j}": v for j, v in enumerate(kwargs)}
+                    kw = _kw_of(kwargs)
                     import copy as _copy
                     import functools
 
                     xv = _exotic(opi + 3 * len(case["ops"]) + len(script))
                     xv_before = _copy.deepcopy(xv) if isinstance(xv, (list, dict, set)) else None
                     rec = ctx["rec"] = []
-                    fn = (lambda agent, *a, **k: run.call(agent, a, k))
+                    fn = (lambda agent, /, *a, **k: run.call(agent, a, k))
                     target = {"name": "act", "strsub": _StrSub("act"), "callobj": _CallObj(fn), "partial": functools.partial(fn),
                               "badname": "no_such_method"}.get(form, fn)
                     raised = False
@@ -912,7 +961,7 @@ def _run_impl(env, case):
                     if rel_after != rel_snap:
                         failures.append({"key": f"C04/{akind}/set-order-changed", "op": opi,
                                          "what": f"the set's own order was {snap} before {akind} and is {after} after it: surviving members changed their relative order"})
-                    full = list(args) + list(kwargs)
+                    full = list(args) + [kw[n] for n in sorted(kw)]
                     o = [-30]
                     for c in calls:
                         o += [c[0]] + [int(x) for x in c[2]] + [int(c[3][n]) for n in sorted(c[3]) if n not in ("tok", "xv") and isinstance(c[3][n], int)]
@@ -931,7 +980,7 @@ def _run_impl(env, case):
                     run.calls = []
                     ev0 = len(run.events)
                     token = object()
-                    kw = {f"k{j}": v for j, v in enumerate(kwargs)}
+                    kw = _kw_of(kwargs)
                     gb = s.groupby(f"g{m}") if byform == "attr" else s.groupby(lambda a: a._hid % m)
                     xv = _exotic(opi + len(script))
                     import copy as _copy2
@@ -955,8 +1004,8 @@ def _run_impl(env, case):
                     res = None
                     try:
                         if outer.endswith("-callable"):
-                            inner = (lambda agent, *a, **k: run.call(agent, a, k))
-                            res = getattr(gb, outer[:-9])(lambda grp, *a, **k: getattr(grp, akind)(inner, *a, **k), *args, tok=token, xv=xv, **kw)
+                            inner = (lambda agent, /, *a, **k: run.call(agent, a, k))
+                            res = getattr(gb, outer[:-9])(lambda grp, /, *a, **k: getattr(grp, akind)(inner, *a, **k), *args, tok=token, xv=xv, **kw)
                         else:
                             res = getattr(gb, outer)(akind, "act", *args, tok=token, xv=xv, **kw)
                     except _Boom:
@@ -1016,7 +1065,7 @@ def _run_impl(env, case):
                             failures.append({"key": "C04/groupby-map/results", "op": opi,
                                              "what": f"GroupBy.map({akind!r}) returned {res!r}; required one entry per group {keys} holding that group's result"})
                     del res, gb
-                    full = list(args) + list(kwargs)
+                    full = list(args) + [kw[n] for n in sorted(kw)]
                     o = []
                     for k in keys[:nvis]:
                         o += [-34, k]
@@ -1041,7 +1090,7 @@ def _run_impl(env, case):
                     run.calls = []
                     ev0 = len(run.events)
                     token = object()
-                    kw = {f"k{j}": v for j, v in enumerate(kwargs)}
+                    kw = _kw_of(kwargs)
                     gb = (s.groupby(f"g{m}", result_type="list") if byform == "attr"
                           else s.groupby(lambda a: a._hid % m, result_type="list"))
                     want_groups = []
@@ -1063,7 +1112,7 @@ def _run_impl(env, case):
                     res = None
                     try:
                         xv = _exotic(opi + 7)
-                        res = getattr(gb, outer)(lambda grp, *a, **k: [run.call(agent, a, k) for agent in grp], *args, tok=token, xv=xv, **kw)
+                        res = getattr(gb, outer)(lambda grp, /, *a, **k: [run.call(agent, a, k) for agent in grp], *args, tok=token, xv=xv, **kw)
                     except _Boom:
                         raised = True
                     calls = run.calls
@@ -1098,7 +1147,7 @@ def _run_impl(env, case):
                             failures.append({"key": f"C04/{site}/results", "op": opi, "what": f"GroupBy.map returned {res!r}"})
                     del res, gb
                     run.strong = set()
-                    full = list(args) + list(kwargs)
+                    full = list(args) + [kw[n] for n in sorted(kw)]
                     o = []
                     for k in keys[:nvis]:
                         o += [-34, k]
@@ -1255,7 +1304,7 @@ def coq_case(case):
             perm = op[8] if len(op) > 8 else []
             if akind.startswith("copy_"):
                 akind = akind[5:]     # a weakly held copy behaves like the set itself
-            tail = f"{_sref(sref)} {L.zlist(perm)} {_script(script)} {_scripts_lit(scripts)} {L.zlist(list(args) + list(kwargs))}"
+            tail = f"{_sref(sref)} {L.zlist(perm)} {_script(script)} {_scripts_lit(scripts)} {L.zlist(list(args) + _kw_values(kwargs))}"
             if akind == "shuffle_then_do":
                 out.append(f"OShuffleThenDo {tail}")
             elif akind in _K:
@@ -1266,11 +1315,11 @@ def coq_case(case):
             _, akind, outer, byform, sref, m, script, args, kwargs, scripts = op[:10]
             perms = op[10] if len(op) > 10 else []
             ok = m in (1, 2, 3) and akind in _K
-            out.append(f"OGroup {_K.get(akind, 'KDo')} {_sref(sref)} {L.z(m if ok else 0)} {L.lst([L.zlist(p) for p in perms])} {_script(script)} {_scripts_lit(scripts)} {L.zlist(list(args) + list(kwargs))}")
+            out.append(f"OGroup {_K.get(akind, 'KDo')} {_sref(sref)} {L.z(m if ok else 0)} {L.lst([L.zlist(p) for p in perms])} {_script(script)} {_scripts_lit(scripts)} {L.zlist(list(args) + _kw_values(kwargs))}")
         elif k == "grouplist":
             _, outer, byform, sref, m, script, args, kwargs, scripts = op[:9]
             ok = m in (1, 2, 3) and outer in ("do", "map")
-            out.append(f"OGroupList {_sref(sref)} {L.z(m if ok else 0)} {_script(script)} {_scripts_lit(scripts)} {L.zlist(list(args) + list(kwargs))}")
+            out.append(f"OGroupList {_sref(sref)} {L.z(m if ok else 0)} {_script(script)} {_scripts_lit(scripts)} {L.zlist(list(args) + _kw_values(kwargs))}")
         elif k in ("groupcount", "groupagg"):
             out.append(f"{'OGroupCount' if k == 'groupcount' else 'OGroupAgg'} {_sref(op[2])} {L.z(op[3] if op[3] in (1, 2, 3) else 0)}")
         elif k in ("foreignset", "iterhold"):
@@ -1314,8 +1363,8 @@ def nontrivial(case):
             # at least two calls
             if op[0] == "activate":
                 width = 1 + len(op[5]) + len(op[6])
-                end = next(i for i, v in enumerate(o) if v in (-31, -32, -37))
-                if (end - 1) // width >= 2:
+                end = next((i for i, v in enumerate(o) if v in (-31, -32, -37, -99, -38)), None)
+                if end is not None and (end - 1) // width >= 2:
                     return True
             else:
                 return True
